@@ -258,6 +258,9 @@ pub fn families() -> Vec<Box<dyn Family>> {
                     let d = TextDiff::configure().algorithm(alg).diff_slices(&ra, &rb);
                     let ops = d.ops().to_vec();
                     let n = *Rng::for_case(cfg.seed, "c12.textdiff.n", idx).pick(&NS);
+                    // the same diff object is asked several times with other radii first
+                    let _ = d.grouped_ops(NS[(idx % 14) as usize]);
+                    let _ = d.grouped_ops(1);
                     (ops, n, d.grouped_ops(n))
                 });
                 out.eval();
@@ -275,6 +278,41 @@ pub fn families() -> Vec<Box<dyn Family>> {
                         if groups.len() > 1 {
                             out.nontrivial(&(&a, &b, n));
                         }
+                    }
+                }
+            },
+        ),
+        family(
+            "huge_textdiff",
+            "a text diff of 2^23 + k identical tokens with a single insertion (f32 ratio rounds to 1.0 there) — grouped_ops(n) must still return the change; and repeated grouped_ops calls with different n on ONE diff object",
+            false,
+            1,
+            |cfg| if cfg.tiny { 0 } else { cfg.tier.pick(1, 2) },
+            |idx, _cfg, out| {
+                let n_tokens = (1usize << 23) + 3 + idx as usize;
+                let old: Vec<&str> = vec!["x\n"; n_tokens];
+                let mut new = old.clone();
+                new.push("y\n");
+                out.eval();
+                out.nontrivial(&("huge", idx));
+                out.sample(|| format!("{} identical tokens + one inserted token", n_tokens));
+                let r = guard(|| {
+                    let d = TextDiff::from_slices(&old, &new);
+                    let ops = d.ops().to_vec();
+                    let g3 = d.grouped_ops(3);
+                    let g0 = d.grouped_ops(0);
+                    (ops, g3, g0)
+                });
+                match r {
+                    Err(p) => out.violation("panic", format!("huge TextDiff panicked: {}", p)),
+                    Ok((ops, g3, g0)) => {
+                        for (n, g) in [(3usize, g3), (0, g0)] {
+                            let expect = reference_groups(&ops, n);
+                            if strip_empty_equal(&g) != expect {
+                                out.violation("group.differs_from_reference", format!("TextDiff::grouped_ops({}) on {} tokens: ops={} got {} reference {}", n, n_tokens, fmt_ops(&ops), fmt_groups(&g), fmt_groups(&expect)));
+                            }
+                        }
+                        out.count("huge_textdiff_cases");
                     }
                 }
             },
